@@ -31,6 +31,7 @@ META = dict(
     level="bounded symbolic model checking of the time-series flag machinery (TSDataTracking::record_modified, TSParentLink::notify_child_modified, invalidate, "
           "atomic / fixed-structured / slot / window ops, TSOutputView and TSInputView / target-link reads) against a mirror model: every operation history up to "
           "the bound for eight shapes, all times and payloads symbolic",
-    note="two behaviours of the unchanged tree contradict the statement and are listed in known_findings.jsonl (consumer flags after an explicit invalidation; "
-         "TSInputView::delta_value at child positions); details and triage in notes/C04.md",
+    note="F1 (consumer modified / last_modified_time differ from the producer's after an explicit invalidation) is an open known finding asserted under its own "
+         "id; F2 (TSInputView::delta_value leaking the value at child positions) was found by this harness and is fixed in /repo 4775a99; the TSW model follows "
+         "08e1221 (valid only while min_period elements are held); details and triage in notes/C04.md",
 )
